@@ -144,7 +144,12 @@ func record(seed int64, traces, n int, out, mode string) {
 }
 
 // doPicked executes a picked step; "step" releases a random parked goroutine
-func (d *driver) doPicked(o op, rng *rand.Rand) error {
+func (d *driver) doPicked(o op, rng *rand.Rand) (err error) {
+	defer func() {
+		if r := recover(); r != nil { // a panic of the code under test ends the trace like a failed operation
+			err = fmt.Errorf("panic: %v", r)
+		}
+	}()
 	if o.Op == "step" {
 		ps := d.s.g.parked()
 		return d.release(ps[rng.Intn(len(ps))])
@@ -219,6 +224,7 @@ func schedules(path, out string, seed int64) {
 	}
 	distinct := vtrace.NewDistinct()
 	steps, skipped := 0, 0
+	var aborted []string
 	for bi, raw := range lines {
 		var b []schedStep
 		if err := json.Unmarshal(raw, &b); err != nil || len(b) == 0 || b[0].A != "New" {
@@ -243,32 +249,33 @@ func schedules(path, out string, seed int64) {
 			return
 		}
 		sig := ""
+		failed := ""
 		for _, st := range b[1:] {
 			o, ok := d.mapStep(st)
 			if !ok || !d.enabled(o) {
 				skipped++
 				continue
 			}
-			var e error
-			switch o.Op {
-			case "lstep":
-				e = d.release(d.parkedLoop())
-			case "genq":
-				e = d.release(d.parkedJob(d.jobs[o.Idx-1]))
-			default:
-				e = d.do(o, rng)
-			}
+			e := d.doMapped(o, rng)
 			if e != nil {
-				vtrace.Broken(fmt.Sprintf("behaviour %d step %+v: %v", bi, st, e))
-				return
+				failed = fmt.Sprintf("behaviour %d step %+v: %v", bi, st, e)
+				break
 			}
 			sig += o.Op + fmt.Sprint(d.s.tsm.IsPruningBlocked()) + ","
 			steps++
 		}
 		distinct.Add(fmt.Sprint(c.BufLen, c.Queue, c.CpMod, sig))
-		if err := d.finish(); err != nil {
-			vtrace.Broken(err.Error())
-			return
+		if failed == "" {
+			if err := d.finish(); err != nil {
+				failed = fmt.Sprintf("behaviour %d end: %v", bi, err)
+			}
+		}
+		if failed != "" { // see record(): the trace recorded so far is validated, it must explain the failure
+			aborted = append(aborted, failed)
+			d.abort()
+			if len(aborted) >= 3 {
+				break
+			}
 		}
 	}
 	if err := w.Close(); err != nil {
@@ -276,9 +283,25 @@ func schedules(path, out string, seed int64) {
 	}
 	vtrace.Stat("events", w.N)
 	vtrace.Stat("behaviours", len(lines))
+	vtrace.Stat("aborted", aborted)
 	vtrace.Stat("steps", steps)
 	vtrace.Stat("skipped", skipped)
 	vtrace.Stat("distinct", distinct.Len())
+}
+
+func (d *driver) doMapped(o op, rng *rand.Rand) (err error) {
+	defer func() {
+		if r := recover(); r != nil {
+			err = fmt.Errorf("panic: %v", r)
+		}
+	}()
+	switch o.Op {
+	case "lstep":
+		return d.release(d.parkedLoop())
+	case "genq":
+		return d.release(d.parkedJob(d.jobs[o.Idx-1]))
+	}
+	return d.do(o, rng)
 }
 
 // mapStep translates one abstract action into a schedule step of the real stack
